@@ -255,36 +255,54 @@ func (in *instr) tear(f *ast.File, src []byte, as *ast.AssignStmt, fn string) bo
 	return true
 }
 
-// tearIfInit handles `if c := R; cond {` where c := R is a multi-word copy of a
-// re-readable expression: the copy is hoisted in front of the if statement
-// (inside a new block, so that scoping is unchanged) and split like any other.
-func (in *instr) tearIfInit(f *ast.File, src []byte, is *ast.IfStmt, fn string) {
-	as, ok := is.Init.(*ast.AssignStmt)
-	info := typeInfo[f]
-	if !ok || info == nil || as.Tok != token.DEFINE || len(as.Lhs) != 1 || len(as.Rhs) != 1 || !pureExpr(as.Rhs[0]) {
+// hoistIfInit turns `if init; cond {…}` into `{ init; yield; if cond {…} }`, so
+// that a switch can fall between the init statement and the condition (a
+// load in the init followed by a compare-and-swap in the condition is one
+// statement to the eye, two steps to the machine). The new block keeps the
+// scope of what init declares exactly as it was (condition, body and every
+// else branch are inside it), and no source text is moved: the keyword `if`
+// becomes `{` and the semicolon after init becomes `; yield; if`. When init is
+// a multi-word copy `c := R` of a re-readable expression, the later parts are
+// read again after the yield (torn load), as for any other copy.
+func (in *instr) hoistIfInit(f *ast.File, src []byte, is *ast.IfStmt, fn string) {
+	if ei, ok := is.Else.(*ast.IfStmt); ok {
+		defer in.hoistIfInit(f, src, ei, fn) // `else if init; cond` becomes `else { init; yield; if cond … }`
+	}
+	if is.Init == nil || is.Cond == nil {
 		return
 	}
-	tv, ok := info.Types[as.Rhs[0]]
-	if !ok || tv.Type == nil {
+	from, to := in.tf.Offset(is.Init.End()), in.tf.Offset(is.Cond.Pos())
+	if from >= to || strings.TrimSpace(string(src[from:to])) != ";" {
 		return
 	}
-	ps := parts(tv.Type, typePkg[f])
-	if ps == nil {
-		return
-	}
-	text := func(n ast.Node) string { return string(src[in.tf.Offset(n.Pos()):in.tf.Offset(n.End())]) }
-	lt, rt := text(as.Lhs[0]), "("+text(as.Rhs[0])+")"
+	semi := from + strings.IndexByte(string(src[from:to]), ';')
 	var b strings.Builder
-	b.WriteString("{ " + lt + " := " + rt + "; " + fmt.Sprintf("simrt.Yield(%d); ", in.newSite(as.Pos(), "torn", fn)))
-	for _, p := range ps[1:] {
-		b.WriteString(lt + p + " = " + rt + p + "; ")
+	kind := "ifinit"
+	var torn []string
+	if as, ok := is.Init.(*ast.AssignStmt); ok && typeInfo[f] != nil && as.Tok == token.DEFINE && len(as.Lhs) == 1 && len(as.Rhs) == 1 && pureExpr(as.Rhs[0]) {
+		if tv, ok := typeInfo[f].Types[as.Rhs[0]]; ok && tv.Type != nil {
+			if ps := parts(tv.Type, typePkg[f]); ps != nil {
+				text := func(n ast.Node) string { return string(src[in.tf.Offset(n.Pos()):in.tf.Offset(n.End())]) }
+				lt, rt := text(as.Lhs[0]), "("+text(as.Rhs[0])+")"
+				for _, p := range ps[1:] {
+					torn = append(torn, lt+p+" = "+rt+p+"; ")
+				}
+				kind = "torn"
+			}
+		}
 	}
-	in.insert(is.Pos(), b.String())
-	// drop "c := R;" from the if header
-	in.replace(as.Pos(), in.tf.Offset(is.Cond.Pos())-in.tf.Offset(as.Pos()), "")
+	b.WriteString(fmt.Sprintf("; simrt.Yield(%d); ", in.newSite(is.Init.Pos(), kind, fn)))
+	for _, t := range torn {
+		b.WriteString(t)
+	}
+	b.WriteString("if ")
+	in.replace(is.If, 2, "{ ")
+	in.edits = append(in.edits, edit{off: semi, del: 1, text: b.String(), seq: len(in.edits)})
 	in.insert(is.End(), " }")
-	tornN++
-	hot[fn] = true
+	if kind == "torn" {
+		tornN++
+		hot[fn] = true
+	}
 }
 
 // sharedHot lists the functions that WRITE a variable which outlives the call
@@ -366,6 +384,12 @@ func markShared(f *ast.File) {
 					}
 				case *ast.IncDecStmt:
 					written(t.X, lit, name)
+				case *ast.CallExpr:
+					// top.CompareAndSwap(…), cache.Store(…), pool.Put(…) on a variable
+					// that outlives the call
+					if sel, ok := t.Fun.(*ast.SelectorExpr); ok && syncish[sel.Sel.Name] {
+						written(sel.X, lit, name)
+					}
 				}
 				return true
 			})
@@ -705,6 +729,9 @@ type instr struct {
 	edits   []edit
 	astFile *ast.File
 	src     []byte
+	// captured: local variables that a function literal refers to from outside
+	// its own body (they may outlive the call that declared them)
+	captured map[types.Object]bool
 }
 
 func (in *instr) newSite(pos token.Pos, kind, fn string) uint32 {
@@ -733,9 +760,90 @@ func (in *instr) yieldAt(pos token.Pos, kind, fn string) {
 	in.insert(pos, fmt.Sprintf("simrt.Yield(%d); ", in.newSite(pos, kind, fn)))
 }
 
+// findCaptured collects the local variables of this file that some function
+// literal uses from outside its own body.
+func (in *instr) findCaptured(f *ast.File) {
+	info, pkg := typeInfo[f], typePkg[f]
+	if info == nil || pkg == nil {
+		return
+	}
+	in.captured = map[types.Object]bool{}
+	var lits []*ast.FuncLit
+	var visit func(n ast.Node) bool
+	visit = func(n ast.Node) bool {
+		switch t := n.(type) {
+		case *ast.FuncLit:
+			lits = append(lits, t)
+			ast.Inspect(t.Body, visit)
+			lits = lits[:len(lits)-1]
+			return false
+		case *ast.Ident:
+			if len(lits) == 0 {
+				return true
+			}
+			v, ok := info.Uses[t].(*types.Var)
+			if !ok || v.IsField() || v.Parent() == pkg.Scope() || v.Parent() == types.Universe || v.Pkg() != pkg {
+				return true
+			}
+			outer := lits[0]
+			if v.Pos() < outer.Pos() || v.Pos() >= outer.End() {
+				in.captured[v] = true
+				return true
+			}
+			// declared inside the outermost literal: captured if an inner literal uses it from outside
+			inner := lits[len(lits)-1]
+			if v.Pos() < inner.Pos() || v.Pos() >= inner.End() {
+				in.captured[v] = true
+			}
+		}
+		return true
+	}
+	ast.Inspect(f, visit)
+}
+
+// registerCaptured announces, right after the statement that declares it, every
+// captured local variable to simrt.Captured. Only announcements made while the
+// package is being initialised are kept (a closure built then, and the state it
+// holds, lives as long as the process: it is package state that no
+// package-level variable's value shows); later calls return at once.
+func (in *instr) registerCaptured(s ast.Stmt, fn string) {
+	if len(in.captured) == 0 {
+		return
+	}
+	info := typeInfo[in.astFile]
+	var ids []*ast.Ident
+	switch t := s.(type) {
+	case *ast.DeclStmt:
+		if gd, ok := t.Decl.(*ast.GenDecl); ok && gd.Tok == token.VAR {
+			for _, sp := range gd.Specs {
+				if vs, ok := sp.(*ast.ValueSpec); ok {
+					ids = append(ids, vs.Names...)
+				}
+			}
+		}
+	case *ast.AssignStmt:
+		if t.Tok == token.DEFINE {
+			for _, l := range t.Lhs {
+				if id, ok := l.(*ast.Ident); ok {
+					ids = append(ids, id)
+				}
+			}
+		}
+	}
+	for _, id := range ids {
+		if id.Name == "_" {
+			continue
+		}
+		if obj := info.Defs[id]; obj != nil && in.captured[obj] {
+			in.insert(s.End(), fmt.Sprintf("; simrt.Captured(%q, &%s)", in.p.imp+"."+fn+"."+id.Name, id.Name))
+		}
+	}
+}
+
 // stmts instruments one statement list.
 func (in *instr) stmts(list []ast.Stmt, fn string) {
 	for _, s := range list {
+		in.registerCaptured(s, fn)
 		if in.full {
 			if _, isEmpty := s.(*ast.EmptyStmt); !isEmpty {
 				in.yieldAt(s.Pos(), "stmt", fn)
@@ -744,7 +852,7 @@ func (in *instr) stmts(list []ast.Stmt, fn string) {
 				continue
 			}
 			if is, ok := s.(*ast.IfStmt); ok && in.astFile != nil {
-				in.tearIfInit(in.astFile, in.src, is, fn)
+				in.hoistIfInit(in.astFile, in.src, is, fn)
 			}
 		}
 		in.walk(s, fn)
@@ -820,7 +928,20 @@ func instrumentFile(p *pkgInfo, name string, f *ast.File, full bool) string {
 		die("%v", err)
 	}
 	in := &instr{p: p, file: name, full: full, tf: fset.File(f.Pos()), astFile: f, src: src}
+	in.findCaptured(f)
 	for _, d := range f.Decls {
+		if gd, ok := d.(*ast.GenDecl); ok && gd.Tok == token.VAR {
+			// function literals in the initialiser of a package-level variable
+			// (var f = func() … or var f = newF() built from closures) are code too
+			for _, sp := range gd.Specs {
+				if vs, ok := sp.(*ast.ValueSpec); ok && len(vs.Names) > 0 {
+					for _, v := range vs.Values {
+						in.walk(v, vs.Names[0].Name+".init")
+					}
+				}
+			}
+			continue
+		}
 		fd, ok := d.(*ast.FuncDecl)
 		if !ok || fd.Body == nil {
 			continue
@@ -908,8 +1029,22 @@ var globals []Global
 // Register is called from generated init functions.
 func Register(name string, ptr any) { globals = append(globals, Global{name, ptr}) }
 
+// Captured is called right after the declaration of a local variable that a
+// function literal captures. While the packages of the module are being
+// initialised such a variable is recorded like a package-level one (a closure
+// built during initialisation keeps it alive for the life of the process);
+// once Globals has been asked for, calls return at once.
+func Captured(name string, ptr any) {
+	if sealed {
+		return
+	}
+	globals = append(globals, Global{name + " (local variable captured by a closure built during package initialisation)", ptr})
+}
+
+var sealed bool
+
 // Globals returns every registered package-level variable.
-func Globals() []Global { return globals }
+func Globals() []Global { sealed = true; return globals }
 `
 
 const accessorSrc = `// VerifGlobal describes one package-level variable.
